@@ -79,13 +79,20 @@ fn main() {
                 });
             })
             .unwrap();
-        let v = match rx.recv_timeout(Duration::from_millis(tmo)) {
-            Ok(v) => v,
-            Err(_) => json!({"timeout": true}),
+        let (v, timed_out) = match rx.recv_timeout(Duration::from_millis(tmo)) {
+            Ok(v) => (v, false),
+            Err(_) => (json!({"timeout": true}), true),
         };
-        let mut out = std::io::stdout().lock();
-        writeln!(out, "\n@@VH@@{}", v).unwrap();
-        out.flush().unwrap();
+        {
+            let mut out = std::io::stdout().lock();
+            writeln!(out, "\n@@VH@@{}", v).unwrap();
+            out.flush().unwrap();
+        }
+        if timed_out {
+            // the worker thread cannot be killed and would keep a core busy for the rest of the batch (and starve the
+            // watchdog of later cases): leave, the runner starts a fresh process for the remaining cases
+            std::process::exit(3);
+        }
     }
     std::process::exit(0);
 }
